@@ -92,7 +92,15 @@ func (r *replica) traffic(rnd *rand.Rand, txs [][]byte) {
 	defer func() { recover() }()
 	for i := 0; i < rnd.Intn(3); i++ {
 		r.extras++
-		switch rnd.Intn(4) {
+		switch rnd.Intn(6) {
+		case 4: // module queriers, at the latest height (0) - they run on a copy of the multistore loaded at a version
+			path := []string{"custom/pos/stakedPool", "custom/pos/parameters", "custom/gov/acl", "custom/gov/dao", "custom/gov/daoOwner", "custom/pos/unstakedPool"}[rnd.Intn(6)]
+			r.app.Query(abci.RequestQuery{Path: path})
+		case 5: // ... and at an explicit earlier height
+			path := []string{"custom/pos/stakedPool", "custom/gov/daoOwner", "custom/pos/parameters"}[rnd.Intn(3)]
+			if h := r.app.LastBlockHeight(); h > 0 {
+				r.app.Query(abci.RequestQuery{Path: path, Height: 1 + rnd.Int63n(h)})
+			}
 		case 0:
 			if len(txs) > 0 {
 				r.app.CheckTx(abci.RequestCheckTx{Tx: txs[rnd.Intn(len(txs))]})
